@@ -158,6 +158,41 @@ def outer2_uniq(x):
     return f_uniq(x, k=2.0) + g_uniq(x, x * 0.5) * h_uniq(x)
 
 
+# --- positional arguments that are constants of the caller's graph, and call-time (runtime) parameters: C07 only
+CONSTS = [np.full((4,), 0.5, np.float32), (np.arange(4) * 0.3 - 0.2).astype(np.float32), np.float32(2.0), np.float32(4.0)]
+
+
+def p_plain(x, w):
+    return (x + jnp.tanh(x)) / w
+
+
+@onnx_function
+def p_fn(x, w):
+    return (x + jnp.tanh(x)) / w
+
+
+@onnx_function(unique=True)
+def p_uniq(x, w):
+    return (x + jnp.tanh(x)) / w
+
+
+def gate_plain(x, double=True, shift=True):
+    y = jnp.where(double, x * 2.0, x)
+    return jnp.where(shift, y + 10.0, y)
+
+
+@onnx_function
+def gate_fn(x, double=True, shift=True):
+    y = jnp.where(double, x * 2.0, x)
+    return jnp.where(shift, y + 10.0, y)
+
+
+@onnx_function(unique=True)
+def gate_uniq(x, double=True, shift=True):
+    y = jnp.where(double, x * 2.0, x)
+    return jnp.where(shift, y + 10.0, y)
+
+
 def site_strategy():
     from hypothesis import strategies as st
 
